@@ -47,6 +47,22 @@ class Run:
                 # died inside the test it entered (possibly); confirmed by crash_info
                 pass
         self.crash_info = {int(n): v for n, v in (self.summary.get("crash_info") or {}).items()}
+        # workers written off for an undecodable message (a report with outcome 3): what they do afterwards is
+        # not heard by the controller. 'heard' views stop at the message that got the worker written off.
+        self.writeoff = {}
+        for k, n, ev in self.wevs:
+            if ev[0] == "testreport" and ev[3] == 3 and n not in self.writeoff:
+                self.writeoff[n] = k
+        self.ran_heard, self.completed_heard, self.offbook = {}, {}, {}
+        for n, ran in self.ran.items():
+            if n in self.writeoff:
+                k0 = self.writeoff[n]
+                ns = sum(1 for k, m, ev in self.wevs if m == n and ev[0] == "logstart" and k <= k0)
+                nc = sum(1 for k, m, ev in self.wevs if m == n and ev[0] == "runtest_protocol_complete" and k <= k0)
+                self.ran_heard[n], self.offbook[n] = ran[:ns], ran[ns:]
+                self.completed_heard[n] = self.completed.get(n, [])[:nc]
+            else:
+                self.ran_heard[n], self.completed_heard[n] = ran, self.completed.get(n, [])
 
     def coll_of(self, n):
         ov = self.cfg.get("overrides") or {}
@@ -104,10 +120,10 @@ def accounting(run):
     """per test id: protocol entries, completions, crash reports, requeues"""
     entries = collections.Counter()
     completes = collections.Counter()
-    for n, ran in run.ran.items():
+    for n, ran in run.ran_heard.items():
         for i, _nx in ran:
             entries[run.coll[n][i]] += 1
-    for n, comp in run.completed.items():
+    for n, comp in run.completed_heard.items():
         for i in comp:
             completes[run.coll[n][i]] += 1
     crashreps = collections.Counter()
@@ -144,6 +160,12 @@ def mon_exactly_once(run):
             out.append((sig(run, kind="test-entered-more-than-accounted"), {"test": t, "completes": c, "crashreports": cr, "entries": e}))
     if total_requeued > requeues:
         out.append((sig(run, kind="more-reruns-than-requeues"), {"reruns": total_requeued, "requeues": requeues}))
+    # a written-off worker goes on with its queue (the shutdown marker is queued BEHIND its tests) while the
+    # controller hands the same tests to others: executed twice, reported once
+    for n, extra_runs in run.offbook.items():
+        if extra_runs:
+            out.append((sig(run, kind="tests-executed-again-on-a-written-off-worker"),
+                        {"worker": n, "tests": [run.coll[n][i] for i, _ in extra_runs]}))
     return out
 
 
@@ -158,8 +180,19 @@ def mon_crash_reports(run):
         if o[0] == "h_crashreport":
             reps[o[2]].append(o[1])
     errordown_handled = {o[1] for _k, o in run.outs if o[0] == "nodedown" and o[2] == 1}
+    # written off for an undecodable report: exactly one crash report, naming the test whose report was lost
+    for n, k0 in run.writeoff.items():
+        if n not in errordown_handled or run.coll[n] != run.cfg["coll"]:
+            continue
+        garbled = [ev[1] for k, m, ev in run.wevs if m == n and k == k0 and ev[0] == "testreport" and ev[3] == 3][:1]
+        got = reps.get(n, [])
+        if len(got) != 1:
+            out.append((sig(run, kind="crash-report-count", count=len(got), written_off=True), {"worker": n, "reports": got}))
+        elif garbled and got[0] != run.coll[n][garbled[0]]:
+            out.append((sig(run, kind="crash-report-wrong-test", written_off=True),
+                        {"worker": n, "reported": got[0], "expected": run.coll[n][garbled[0]]}))
     for n, info in run.crash_info.items():
-        if n not in errordown_handled:
+        if n not in errordown_handled or n in run.writeoff:
             continue
         cands = []
         if info.get("running") is not None:
@@ -197,9 +230,13 @@ def mon_report_fifo(run):
             got[o[1]].append(o[2:])
     for n in set(sent) | set(got):
         s, g = sent[n], got[n]
+        if n in run.writeoff:
+            # an undecodable report cannot be delivered and gets its worker written off: only what it produced BEFORE is heard
+            cut = next((j for j, r in enumerate(s) if r[2] == 3), len(s))
+            s = s[:cut]
         if g != s[:len(g)]:
             out.append((sig(run, kind="reports-not-fifo-prefix"), {"worker": n, "sent": s[:12], "forwarded": g[:12]}))
-        elif run.finished_ok() and n in run.summary["exited"] and len(g) != len(s):
+        elif run.finished_ok() and n in run.summary["exited"] and n not in run.writeoff and len(g) != len(s):
             out.append((sig(run, kind="reports-missing-at-end"), {"worker": n, "sent": len(s), "forwarded": len(g)}))
     keys = collections.Counter()
     sent_keys = set()
@@ -242,7 +279,7 @@ def mon_groups(run):
     if run.mode not in SCOPE_MODES:
         return out
     owner = {}
-    for n, ran in run.ran.items():
+    for n, ran in run.ran_heard.items():      # what a written-off worker does afterwards is off the books (KF: it finishes its queue)
         ids = [run.coll[n][i] for i, _ in ran]
         keys = [scope_key(run.mode, t) for t in ids]
         # contiguity + collection order inside the worker
@@ -261,7 +298,7 @@ def mon_groups(run):
                 break
         for kk in set(keys):
             owner.setdefault(kk, set()).add(n)
-    dead = set(run.summary["dead"])
+    dead = set(run.summary["dead"]) | set(run.writeoff)     # written off = lost, as far as the controller is concerned
     for kk, ws in owner.items():
         live = ws - dead
         if len(live) > 1 or (len(ws) > 1 and not (ws & dead)):
@@ -272,8 +309,45 @@ def mon_groups(run):
 
 
 # ------------------------------------------------------------------ C08
-def mon_each(run):
+def mon_each_environment(run):
+    """each mode, whatever the collections: (1) a worker that dies INSIDE a test yields exactly one crash report;
+    (2) a run that ends as 'finished' has had the unfinished tests of every dead initial worker run by
+    later workers with the same collection ('the run does not finish before it has done so')"""
     out = []
+    if run.mode != "each":
+        return out
+    reps = collections.defaultdict(list)
+    for _k, o in run.outs:
+        if o[0] == "h_crashreport":
+            reps[o[2]].append(o[1])
+    handled = {o[1] for _k, o in run.outs if o[0] == "nodedown" and o[2] == 1}
+    if not (run.result and run.result[0] == "error"):
+        for n, info in run.crash_info.items():
+            if n in handled and info.get("running") is not None and len(reps.get(n, [])) != 1:
+                out.append((sig(run, kind="each-crash-report-count", count=len(reps.get(n, []))),
+                            {"worker": n, "reports": reps.get(n, []), "info": info}))
+    if run.finished_ok() and not run.stopped_by_budget():
+        nn = run.cfg["numnodes"]
+        crashed_ids = {o[1] for _k, o in run.outs if o[0] == "h_crashreport"}
+        given = {o[1] for _k, o in run.outs if o[0] == "send" and o[2][0] in ("run", "runall")}
+        for d in sorted(set(run.summary["dead"])):
+            if d >= nn or d not in handled or d not in given:
+                continue
+            done = set(run.completed.get(d, []))
+            rest = [i for i in range(len(run.coll[d])) if i not in done and run.coll[d][i] not in crashed_ids]
+            later = set()
+            for n in range(nn, run.nworkers):
+                if run.coll[n] == run.coll[d]:
+                    later |= {i for i, _ in run.ran.get(n, [])}
+            missing = [i for i in rest if i not in later]
+            if missing:
+                out.append((sig(run, kind="each-run-finished-before-the-remainder-was-run"),
+                            {"dead": d, "unfinished": rest, "never_run": missing}))
+    return out
+
+
+def mon_each(run):
+    out = mon_each_environment(run)
     if run.mode != "each" or not run.finished_ok() or run.stopped_by_budget() or run.collections_disagree():
         return out
     dead = set(run.summary["dead"])
@@ -327,6 +401,25 @@ def mon_agreed_collection(run):
         late = [o for k, o in run.outs if k >= first_diff and o[0] == "send" and o[2][0] in ("run", "runall")]
         if late:
             out.append((sig(run, kind="dispatch-despite-initial-disagreement"), {"cmds": late[:3]}))
+    # initial disagreement: EACH worker whose list differs from the first one's is reported
+    if diffs and run.mode != "each" and not got_tests:
+        k0 = min(k for k, o in run.outs if o[0] == "colldiff")
+        order, gone = [], set()
+        for k, o in run.outs:
+            if k > k0:
+                break
+            if o[0] == "collfinished" and o[1] not in order:
+                order.append(o[1])
+            elif o[0] == "nodedown" and k < k0:
+                gone.add(o[1])
+        live = [n for n in order if n not in gone]
+        if live:
+            ref = live[0]
+            expect = sorted(n for n in live[1:] if run.coll[n] != run.coll[ref])
+            got = sorted(o[2] for k, o in run.outs if o[0] == "colldiff" and k == k0)
+            if got != expect:
+                out.append((sig(run, kind="disagreeing-workers-not-each-reported"),
+                            {"reference": ref, "disagreeing": expect, "reported": got}))
     return out
 
 
@@ -374,6 +467,13 @@ def mon_stop(run):
     handled = {ev[1] for ev in run.ctl_events.values() if ev and ev[0] == "workerfinished"}
     if (stoppers & handled) and run.result == ["finished"]:
         out.append((sig(run, kind="worker-stop-request-ignored"), {"workers": sorted(stoppers & handled)}))
+    # a worker whose own session asked to stop (a test set session.shouldstop) ends REGULARLY: its request is a stop
+    # reason, it is not a dead worker (no error-down, no crash report for a test it never ran, no replacement)
+    asked = {n for n, ran in run.ran.items() if any(i in run.cfg["stops"] for i, _ in ran)}
+    for n in sorted(asked & set(run.summary["exited"]) - set(run.summary["dead"]) - set(run.writeoff)):
+        if any(o[0] == "nodedown" and o[1] == n and o[2] == 1 for _k, o in run.outs):
+            out.append((sig(run, kind="worker-stop-request-treated-as-worker-failure"),
+                        {"worker": n, "crashreports": [o[1] for _k, o in run.outs if o[0] == "h_crashreport" and o[2] == n]}))
     # the stop decision itself: maxfail failed reports, or a worker finishing with a stop request
     maxfail = run.cfg["maxfail"]
     failed = 0
@@ -394,9 +494,17 @@ def mon_command_stream(run):
     out = []
     ref_len = len(run.cfg["coll"])
     per = collections.defaultdict(list)
+    reported = set()
     for k, o in run.outs:
+        if o[0] == "collfinished":
+            reported.add(o[1])
         if o[0] == "send":
             per[o[1]].append((k, o[2]))
+            if o[2][0] in ("run", "runall") and o[1] not in reported:
+                # positions are only meaningful in a collection the worker has agreed to
+                out.append((sig(run, kind="run-command-before-the-worker-agreed-on-a-collection"), {"worker": o[1], "cmd": o[2], "step": k}))
+            if o[2][0] == "run" and o[1] < run.nworkers and any(i >= len(run.coll[o[1]]) for i in o[2][1]):
+                out.append((sig(run, kind="index-not-a-position-of-the-workers-collection"), {"worker": o[1], "cmd": o[2], "step": k}))
     for n, cmds in per.items():
         names = [c[0] for _k, c in cmds]
         if names.count("shutdown") > 1:
